@@ -421,6 +421,37 @@ func (gstHarness) Exec(p *simkit.Program) *simkit.Result {
 	if len(runnable()) > 0 {
 		violate("guardian-set-tasks-stuck", "tasks did not finish: %v", s.trace[len(s.trace)-5:])
 	}
+	// afterwards, sequentially: one more set appears on chain, and every index must still return
+	// the chain's set with that index (a lost or duplicated append during the interleaving shows here)
+	if len(runnable()) == 0 {
+		if sched != nil {
+			sched.cur = nil
+		}
+		chain.add(99)
+		chain.mu.Lock()
+		nsets := len(chain.sets)
+		chain.mu.Unlock()
+		final := &task{name: "final-sweep", done: true}
+		func() {
+			defer func() {
+				if r := recover(); r != nil {
+					final.panicked = fmt.Sprint(r)
+				}
+			}()
+			for i := nsets - 1; i >= 0; i-- {
+				g, err := gs.GetGuardianSet(ctx, i)
+				if err != nil {
+					final.result = fmt.Sprintf("GetGuardianSet(%d) failed after the interleaving: %v", i, err)
+					return
+				}
+				if msg := check(g, i, fmt.Sprintf("GetGuardianSet(%d) after the interleaving", i)); msg != "" {
+					final.result = msg
+					return
+				}
+			}
+		}()
+		tasks = append(tasks, final)
+	}
 	for _, t := range tasks {
 		if t.panicked != "" {
 			violate("guardian-set-lookup-panic", "%s panicked while sets were being appended: %s (last yield %s)", t.name, t.panicked, t.at)
